@@ -48,7 +48,7 @@ TOL_BOX = Fr(1, 10 ** 12)
 TOL_CAP = Fr(1, 10 ** 9)
 DEN_BOUND = 2 ** 18
 BMAX = 64
-FAMILIES = ("smp", "chol", "idx", "cap", "box", "gen", "law", "scale")
+FAMILIES = ("smp", "chol", "idx", "cap", "box", "gen", "law", "scale", "wld")
 SCALE_BLOCK = 1 << 18            # summary blocks, aligned with 2^20
 
 
@@ -73,7 +73,9 @@ BOUNDS = {
         BoxLonCodes={ecode(0, 0), ecode(0, 1), ecode(10, 0), ecode(180, 0), ecode(360, -1), ecode(360, 0)},
         BoxLatCodes={ecode(l, b, 90) for l, b in _BLAT_Q},
         GenSeeds={1, 2}, GenMax=4, LawMax=3, LawLen=3,
-        ScaleNs={1 << 20, (1 << 20) + 1000}, IdxScaleImax={1000000, 2000000}, SmpScaleNs={1000000}),
+        ScaleNs={1 << 20, (1 << 20) + 1000}, IdxScaleImax={1000000, 2000000}, SmpScaleNs={1000000},
+        CholScaleKs={1, 2, 4}, WldGrids={11}, WldPVals={0, 1, 2}, WldMaxCalls=3,
+        WldForms={"bound", "bound_call", "lambda", "closure", "table"}),
     "thorough": dict(
         XVals=set(range(0, 6)), MaxNodes=5, PVals={0, 1, 2, 3}, UDen=16, SmpKinds={"density", "cumulative"},
         LDiag={1, 2, 3}, LOffP={0, 1, 2, 3, 4}, LOffShift=2, CholMaxN=3, CholNs={1, 2, 3}, ZSels={1, 2},
@@ -86,21 +88,30 @@ BOUNDS = {
         BoxLatCodes={ecode(l, b, 90) for l, b in _BLAT_T},
         GenSeeds={1, 2, 3}, GenMax=6, LawMax=3, LawLen=4,
         ScaleNs={(1 << 20) - 1, 1 << 20, (1 << 20) + 1000, (1 << 21) + 7}, IdxScaleImax={1000000, 2000000, 3000017},
-        SmpScaleNs={1000000, (1 << 20) + 1}),
+        SmpScaleNs={1000000, (1 << 20) + 1},
+        CholScaleKs={1, 2, 3, 4, 8}, WldGrids={11, 7, 54}, WldPVals={0, 1, 2}, WldMaxCalls=3,
+        WldForms={"bound", "bound_call", "lambda", "closure", "table"}),
 }
-INVARIANTS = ["SmpTheorems", "SmpMechRefines", "CholFactorIsL0", "CholTheorems", "CholMechRefines", "IdxMechRefines",
+INVARIANTS = ["SmpTheorems", "SmpMechRefines", "CholFactorIsL0", "CholTheorems", "CholMechRefines", "CholScaleLaw", "WldFreshWorld",
+              "WldTheorems", "IdxMechRefines",
               "IdxTheorem", "CapTheorems", "CapMechRefines", "CapPathsAgree", "BoxTheorems", "BoxMechRefines",
               "GenReproducible", "LawIdxSummary", "LawBlocks", "LawSorted", "ScaleTheorems"]
 ACTIONS = ["SmpChooseGrid", "SmpChooseDens", "SmpMechSearch", "SmpMechEvalStep", "CholChooseN", "CholChooseL",
            "CholFactorStart", "CholFactorCol", "CholDraw", "CholMultiply", "IdxChoose", "IdxDrawOne", "IdxReturn", "IdxReject",
            "CapChooseCentre", "CapChooseRad", "CapChooseDraw", "CapDirectStep", "CapInner", "CapTurnTheta", "CapTurnPhi",
            "CapFinish", "BoxChooseLon", "BoxChooseLat", "BoxDrawCorner", "GenStart", "GenCall1", "GenCall2",
-           "LawIdx", "LawPtsLen", "LawPts", "LawMonoLen", "LawMono", "ScaleChoose"]
-MECH = dict(XShift=0, Dedup="lead_last", Transposed=False, FixedRadius=True)
+           "LawIdx", "LawPtsLen", "LawPts", "LawMonoLen", "LawMono", "ScaleChoose",
+           "WldChoose", "WldChooseForm", "WldBuild", "WldSample", "WldScribble"]
+MECH = dict(XShift=0, Dedup="lead_last", Transposed=False, FixedRadius=True, DiagTol=0, MemoKey="none")
 
 # lattice concretisations ---------------------------------------------------------------------
 SCONC = [(1.0, 0), (0.5, -3), (4.0, 2), (2.0 ** -10, 0), (8.0, -6), (1.0, 100)]        # abscissa = (x + off) * unit
 CCONC = [(1.0, 1.0), (2.0, 0.5), (0.25, 4.0), (8.0, 2.0 ** -6)]                          # cov = sigma*s^2, deviate = z*zunit
+NBASE = len(CCONC)
+# the scale ladder (class M, law CholThmScale of Sampler.tla): the same lattice case transported to covariances of
+# 1e-24 .. 1e24, densely around numpy.allclose's absolute 1e-8 (s^2 = 2^-24 .. 2^-30) and around 1e-5 / 1e-12 / 1e-16
+CLADDER = [2.0 ** e for e in (-40, -30, -26, -20, -17, -15, -14, -13, -12, -10, -8, -5, 5, 10, 20, 30, 40)]
+CCONC += [(sc, 1.0) for sc in CLADDER]
 CAP_EPS = (2, 3)           # eps = 1e-6, 1e-3 degree (the statement's smallest radius is 1e-6)
 BOX_EPS = (1, 2, 3)        # eps = 1e-9, 1e-6, 1e-3 degree
 
@@ -362,6 +373,114 @@ def ob_smpr(c, meta):
             raw.append(repr(e))
         obs.append(o)
     return obs, raw
+
+
+# ---------------------------------------------------------------------------------
+# wld : sessions over two Generator objects of twin densities in ONE (fresh) process
+class _Dens(object):
+    """a density object: the table is instance state, the methods are shared by all instances"""
+
+    def __init__(self, table, unit, off):
+        self.table, self.unit, self.off = table, unit, off
+
+    def prob(self, t):
+        r = np.array([self.table[int(round(float(v) / self.unit - self.off))] for v in np.atleast_1d(t)], dtype="f8")
+        return r if np.ndim(t) else float(r[0])
+
+    def __call__(self, t):
+        return self.prob(t)
+
+
+def _mk_lambda(d):
+    return lambda t: d.prob(t)            # one code object, the parameters live in the closure
+
+
+def wld_density(form, x, p, unit, off):
+    d = _Dens(dict(zip(x, [float(t) for t in p])), unit, off)
+    if form == "bound":
+        return d.prob
+    if form == "bound_call":
+        return d.__call__
+    if form == "lambda":
+        return _mk_lambda(d)
+    if form == "closure":
+        def pofx(t):
+            return d.prob(t)
+        return pofx
+    if form == "table":
+        return np.array(p, dtype="f8")
+    raise MachineryError("unknown hand-over form " + form)
+
+
+def wld_session(c, meta):
+    """executes the whole session; returns (calls, raw) - runs in a process of its own"""
+    import esutil.random as er
+    unit, off = SCONC[meta["conc"]]
+    us = [float(Fr(n, d)) for n, d in c["us"]]
+    xs = np.array([(t + off) * unit for t in c["x"]], dtype="f8")        # ONE grid object for both generators
+    dens = {1: c["pa"], 2: c["pb"]}
+    gens, last, calls, raw = {}, {}, [], []
+    for st in c["sched"]:
+        k = int(st[1])
+        if st[0] == "B":
+            f = wld_density(c["form"], c["x"], dens[k], unit, off)
+            gens[k] = call(er.Generator, f, x=xs, cumulative=(c["kind"] == "cumulative"), rng=StubRNG(uniform_values=us))
+        elif st[0] == "S":
+            vals = call(gens[k].sample, len(us))
+            last[k] = vals
+            flat = np.atleast_1d(vals).ravel()
+            v, ing, nb, mono = smp_project({"kind": c["kind"], "x": c["x"], "p": dens[k]}, meta["conc"], flat.tolist())
+            calls.append({"err": "none", "cnt": int(flat.size), "v": v, "ing": ing, "nb": nb, "mono": mono})
+            raw.append([st, [float(t) for t in flat]])
+        else:                                   # the caller overwrites the array it was handed
+            a = last.get(k)
+            if isinstance(a, np.ndarray) and a.flags.writeable:
+                a[...] = -777.0
+    return calls, raw
+
+
+def in_child(fn, *a):
+    """run fn(*a) in a forked child (a fresh world for process-level state) and return its result"""
+    import os
+    import pickle
+    r, w = os.pipe()
+    pid = os.fork()
+    if pid == 0:
+        code = 0
+        try:
+            os.close(r)
+            try:
+                out = ("ok", fn(*a))
+            except MachineryError as e:
+                out = ("mach", str(e))
+            except Exception as e:  # noqa
+                out = ("err", errname(e), repr(e))
+            with os.fdopen(w, "wb") as fh:
+                pickle.dump(out, fh)
+        except BaseException:  # noqa
+            code = 1
+        os._exit(code)
+    os.close(w)
+    with os.fdopen(r, "rb") as fh:
+        data = fh.read()
+    _, status = os.waitpid(pid, 0)
+    if status != 0 or not data:
+        raise MachineryError("session child failed (status %s)" % status)
+    return pickle.loads(data)
+
+
+def ob_wld(c, meta):
+    out = in_child(wld_session, c, meta)
+    o = {"k": 1, "form": c["form"]}
+    if out[0] == "mach":
+        raise MachineryError(out[1])
+    if out[0] == "ok":
+        o.update(err="none", calls=out[1][0])
+        raw = out[1][1]
+    else:
+        o.update(err=out[1], calls=[])
+        raw = out[2]
+    return [o], [raw]
 
 
 # ---------------------------------------------------------------------------------
@@ -775,7 +894,7 @@ def json_key(x):
 
 
 OBSERVERS = {"smp": ob_smp, "smpr": ob_smpr, "chol": ob_chol, "idx": ob_idx, "box": ob_box, "cap": ob_cap,
-             "idxs": ob_idxs, "caps": ob_caps, "boxs": ob_boxs, "smps": ob_smps}
+             "wld": ob_wld, "idxs": ob_idxs, "caps": ob_caps, "boxs": ob_boxs, "smps": ob_smps}
 
 
 def observe(item):
@@ -804,8 +923,12 @@ def work_from_export(exp, ctx):
                      [("legacy", "cum_table"), ("generator", "cum_func"), ("seed", "cum_table")])
             add("smpr", {"kind": c["kind"], "x": c["x"], "p": c["p"], "cum": c0["cum"], "n": 48},
                 {"conc": (i + 1) % len(SCONC), "kinds": kinds, "seed": seed * 100003 + i})
+    for i, c0 in enumerate(exp.get("WLD", [])):
+        add("wld", c0, {"conc": i % len(SCONC)})
     for i, c0 in enumerate(exp["CHOL"]):
-        add("chol", c0, {"conc": i % len(CCONC), "entries": ["class", "func", "func_nomean", "class_scalar"]})
+        add("chol", c0, {"conc": i % NBASE, "entries": ["class", "func", "func_nomean", "class_scalar"]})
+        # the same case transported along the scale ladder (law CholThmScale); both entry points that factorise
+        add("chol", c0, {"conc": NBASE + (i + i // len(CLADDER)) % len(CLADDER), "entries": ["class", "func"]})
     for i, c0 in enumerate(exp["IDX"]):
         add("idx", c0, {"srcs": ["seed", "generator", "legacy"], "seed": seed * 7919 + 31 * i})
     for i, c0 in enumerate(exp["BOX"]):
@@ -952,8 +1075,12 @@ def signatures(rec, o, clause):
             # 0/0 on the zero-width first segment: one signature whatever clause / entry mode the nan trips
             return ["Generator.sample|nan_output|leading_flat"]
         return ["Generator.sample|%s|%s|%s" % (clause, o.get("mode", ""), klass)]
+    if op == "wld":
+        return ["Generator.sample|two_objects_one_process|%s|%s" % (clause, o.get("form", ""))]
     if op == "chol":
-        return ["cholesky|%s|%s" % (clause, o.get("entry", ""))]
+        cov = "cov_%s" % ("order_one" if rec["meta"]["conc"] < NBASE else "below_1e-7" if CCONC[rec["meta"]["conc"]][0] ** 2 < 1e-7 else
+                          "scaled")
+        return ["cholesky|%s|%s|%s" % (clause, o.get("entry", ""), cov)]
     if op == "idx":
         return ["random_indices|%s|%s|%s" % (clause, "unique" if rec["c"]["unique"] else "replace", o.get("src", ""))]
     if op == "box":
@@ -986,7 +1113,7 @@ def signatures(rec, o, clause):
     return ["%s|%s" % (op, clause)]
 
 
-NAMES = {"smp": "Generator.sample", "smpr": "Generator.sample", "chol": "the Cholesky sampler", "idx": "random_indices",
+NAMES = {"wld": "Generator.sample (session of two objects)", "smp": "Generator.sample", "smpr": "Generator.sample", "chol": "the Cholesky sampler", "idx": "random_indices",
          "box": "randsphere", "cap": "randcap", "idxs": "random_indices", "caps": "randcap", "boxs": "randsphere",
          "smps": "Generator.sample"}
 
@@ -1013,7 +1140,7 @@ def judge(ctx, recs, what, leads=None, cap_per_sig=4):
                     continue
                 ctx.violation(sig, "clause %s of Sampler.tla rejects what %s returned (observation %d: %s)" %
                               (cl, NAMES[r["op"]], k,
-                               {kk: vv for kk, vv in o.items() if kk in ("mode", "kind", "entry", "src", "system", "getrad", "err")}),
+                               {kk: vv for kk, vv in o.items() if kk in ("mode", "kind", "entry", "src", "system", "getrad", "err", "form")}),
                               {"op": r["op"], "c": r["c"], "meta": r["meta"], "clause": cl, "k": k, "sig": sig,
                                "raw": r["raw"][k - 1] if k - 1 < len(r["raw"]) else None})
     return rejects, emitted
@@ -1045,7 +1172,8 @@ def run(ctx):
                  ZSels={1}, CapLonCodes={ecode(10, 0)}, CapLatCodes={ecode(30, 0, 90)}, CapRadCodes={ecode(20, 0)})
     for fam, dev, inv in (("smp", {"XShift": 1}, "SmpMechRefines"), ("smp", {"Dedup": "unique_first"}, "SmpMechRefines"),
                           ("smp", {"Dedup": "none_strict"}, "SmpMechRefines"),
-                          ("chol", {"Transposed": True}, "CholMechRefines"), ("cap", {"FixedRadius": False}, "CapMechRefines")):
+                          ("chol", {"Transposed": True}, "CholMechRefines"), ("cap", {"FixedRadius": False}, "CapMechRefines"),
+                          ("chol", {"DiagTol": 1}, "CholScaleLaw"), ("wld", {"MemoKey": "func_only"}, "WldFreshWorld")):
         if fam not in fams:
             continue
         r = ctx.tlc("SamplerMC.tla", what="self-test: deviating %s mechanism %s violates %s" % (fam, dev, inv),
@@ -1053,14 +1181,18 @@ def run(ctx):
                     workers=1, allow_violation=True, coverage=False)
         if inv not in r.violated:
             raise MachineryError("self-test failed: %s not violated by the deviating mechanism %s" % (inv, dev))
+    if "wld" in fams:      # ... and the faithful memo (keyed by function AND parameters) must satisfy the world invariant
+        ctx.tlc("SamplerMC.tla", what="self-test: a memo keyed by function and parameters keeps WldFreshWorld",
+                cfg_text=cfg(constants=dict(small, Families={"wld"}, **dict(MECH, MemoKey="full")), invariants=["WldFreshWorld"]),
+                workers=1, coverage=False)
     # 2. export every case (spec -> code)
     r2 = ctx.tlc("SamplerMC.tla", what="export cases",
                  cfg_text=cfg(constants=dict(consts, DoExport=True), next_="NextExport", constraints=["Export"]),
                  workers=1, coverage=False, timeout=3000)
-    exp = {t: r2.records.get(t, []) for t in ("SMP", "CHOL", "IDX", "BOX", "CAP", "SCALE")}
+    exp = {t: r2.records.get(t, []) for t in ("SMP", "CHOL", "IDX", "BOX", "CAP", "SCALE", "WLD")}
     if "scale" in fams and len(exp["SCALE"]) < 10:
         raise MachineryError("too few scale cases exported (%d)" % len(exp["SCALE"]))
-    for t, f in (("SMP", "smp"), ("CHOL", "chol"), ("IDX", "idx"), ("BOX", "box"), ("CAP", "cap")):
+    for t, f in (("SMP", "smp"), ("CHOL", "chol"), ("IDX", "idx"), ("BOX", "box"), ("CAP", "cap"), ("WLD", "wld")):
         if f in fams and len(exp[t]) < 20:
             raise MachineryError("too few %s cases exported (%d)" % (t, len(exp[t])))
     # 2b. the projection kernel must reproduce the exact separations of the exported lattice expectations
@@ -1127,6 +1259,17 @@ def run(ctx):
     if "smp" in fams:
         twin("smp", m_smp, lambda r: len(r["c"]["x"]) >= 3 and smp_class(r["c"]) == "strictly_increasing" and
              r["obs"][0]["err"] == "none")
+    def m_wld(r, o):
+        calls = [dict(t) for t in o["calls"]]
+        v = [dict(t) for t in calls[-1]["v"]]
+        if v[-1]["k"] != "rat":
+            return None
+        v[-1]["n"] += v[-1]["d"]
+        calls[-1]["v"] = v
+        return dict(o, calls=calls)
+    if "wld" in fams:
+        twin("wld", m_wld, lambda r: r["obs"][0]["err"] == "none" and r["obs"][0]["calls"] and all(
+            smp_class({"kind": r["c"]["kind"], "p": r["c"][t]}) == "strictly_increasing" for t in ("pa", "pb")))
     if "chol" in fams:
         twin("chol", m_chol, lambda r: r["obs"][0]["err"] == "none")
     if "idx" in fams:
